@@ -77,10 +77,31 @@ child_cli (plan const &p, int out_fd)
   std::vector <std::string> args;
   std::string in;
   bool have_in = false;
+  std::string qfile_path;
+  for (auto const &s: p.steps)
+    if (s.op == "QFILE")
+      {
+	// A script file for -f: a memfd, named through /proc/self/fd.
+	std::string content = s.args.empty () ? "" : hexdec (s.args[0]);
+	int qfd = memfd_create ("zsim-cli-qfile", 0);
+	if (qfd < 0)
+	  _exit (3);
+	if (! content.empty ())
+	  {
+	    ssize_t n = pwrite (qfd, content.data (), content.size (), 0);
+	    (void) n;
+	  }
+	qfile_path = "/proc/self/fd/" + std::to_string (qfd);
+      }
   for (auto const &s: p.steps)
     if (s.op == "ARGV")
       for (auto const &a: s.args)
-	args.push_back (hexdec (a));
+	{
+	  std::string v = hexdec (a);
+	  if (v == "@QFILE@")
+	    v = qfile_path;
+	  args.push_back (v);
+	}
     else if (s.op == "STDIN")
       {
 	have_in = true;
@@ -90,7 +111,7 @@ child_cli (plan const &p, int out_fd)
       fs_arm_io (s.io);
 
   int ofd = memfd_create ("zsim-cli-out", 0);
-  int efd = memfd_create ("zsim-cli-err", 0);
+  int efd = g_child_errfd >= 0 ? g_child_errfd : memfd_create ("zsim-cli-err", 0);
   int ifd = memfd_create ("zsim-cli-in", 0);
   if (ofd < 0 || efd < 0 || ifd < 0)
     _exit (3);
